@@ -72,8 +72,8 @@ Proof.
   destruct (is_voted _ r); [intros H; inversion H; subst; auto|].
   destruct suf as [su|].
   - destruct (negb (ballot_valid_suf _ _ _)); intros H; inversion H; subst; auto.
-    destruct (b_vp bl), (b_ex bl); simpl; auto.
-  - intros H; inversion H; subst. destruct (b_vp bl), (b_ex bl); simpl; auto.
+    unfold recorded. destruct (b_vp bl), (b_ex bl); simpl; auto.
+  - intros H; inversion H; subst. unfold recorded. destruct (b_vp bl), (b_ex bl); simpl; auto.
 Qed.
 
 Lemma count_from_voted_hdr local th s el px sp r r' o :
